@@ -375,7 +375,7 @@ class Gen:
         r = self.rng
         saved = self.snapshot_scope()
         forms = ['count', 'count', 'range', 'interp', 'cycle', 'while']
-        if self.feature('iter') and self.locals is None:
+        if self.feature('iter') and (self.locals is None or self.feature('iter_in_routines', True)):
             forms += ['all', 'group', 'location', 'in', 'in']
         form = r.choice(forms)
         self.loop_depth += 1
